@@ -19,7 +19,7 @@ RULE = (
     "unloc and rank laws. Non-trivial = set with >=2 distinct names; distinct = distinct name multisets."
 )
 ASSUMPTIONS = [
-    "names are ASCII over letters, digits, '_', '-', '.' and shorter than 60 characters",
+    "names are ASCII over letters, digits, '_', '-', '.'; random names are shorter than 60 characters, the numeric law also uses names of 200-400 fields",
     "the unloc law is checked for chromosome names none of which is a proper prefix of another followed by a digit (e.g. not X together with X1)",
 ]
 
@@ -157,6 +157,10 @@ def law_rename_resort(ctx, rng):
 
 def law_numeric(ctx, rng):
     P = rng.choice(["SUPER_", "scaffold_", "chr", "H_", "a.b-", "x_I_"])
+    if rng.random() < 0.03:
+        # a very long name: hundreds of numeric fields before the one that differs
+        P = "".join(f"f{rng.randint(0, 99)}_" for _ in range(rng.choice([200, 255, 256, 257, 400])))
+        ctx.count("law:numeric:names-with-hundreds-of-fields")
     S = rng.choice(["", "_unloc_1", "A", ".x", "_I"])
     m = rng.randint(0, 10 ** rng.randint(0, 6))
     n = m + rng.choice([1, 1, 9, rng.randint(1, 10**5)])
@@ -421,11 +425,11 @@ def replay(case, ctx):
 def plan(tier, seed):
     n, per = (16, 2500) if tier == "quick" else (16, 40000)
     return [{"kind": "names", "n": per, "perms": 6 if tier == "quick" else 20} for _ in range(n)] + [{"kind": "prefix-names", "n": 200 if tier == "quick" else 5000}] + [
-        {"kind": "cli", "n": 60 if tier == "quick" else 600} for _ in range(4)
+        {"kind": "cli", "n": 75 if tier == "quick" else 600} for _ in range(8)
     ]
 
 
 def gates(c, tier):
-    need = {"sets:sorted": 2000, "law:numeric": 500, "law:roman": 500, "law:unloc": 500, "law:rename-resort": 200, "monitor_evals:name_natural_key": 50000,
+    need = {"sets:sorted": 2000, "law:numeric": 500, "law:numeric:names-with-hundreds-of-fields": 20, "law:roman": 500, "law:unloc": 500, "law:rename-resort": 200, "monitor_evals:name_natural_key": 50000,
             "cli:order-checked": 100, "cli:chromosome-list-with-3-or-more-lines": 30, "cli:three-or-more-haplotypes": 30, "cli:all_haplotigs-with-several-ranks": 5, "cli:file-merged-from-several-assemblies": 5, "monitor_evals:name_assemblies": 100}
     return [f"{k}>={v} (got {c.get(k, 0)})" for k, v in need.items() if c.get(k, 0) < v]
